@@ -139,7 +139,7 @@ def parse_block(lines):
 def run_impl(ctx, exe, cases, timeout=None):
     """-> list aligned with cases of dicts (parsed block) with extra keys crashed / detail"""
     if timeout is None:
-        timeout = 150 + len(cases) // 2
+        timeout = 60 + len(cases) // 5
     results = [None] * len(cases)
     index = {c["id"]: i for i, c in enumerate(cases)}
     start = 0
@@ -881,8 +881,9 @@ def run(ctx):
     ctx.note("phase: SPE index/coordinate cases done at %.1f s" % ctx.elapsed())
     eval_pairs(ctx, exe, mexe, [c for c in corp if c["kind"] in ("RP", "FA")] + pairs, st)
     ctx.note("phase: RP/FA pairs and replays done at %.1f s" % ctx.elapsed())
-    eval_spe(ctx, exe, mexe, meas, st)
-    eval_moments(ctx, exe_plain, rng, st, budget["reps"])
+    if not ctx.has_violation():       # the measured tests cannot change a verdict that exists already
+        eval_spe(ctx, exe, mexe, meas, st)
+        eval_moments(ctx, exe_plain, rng, st, budget["reps"])
     ctx.note("phase: measured tests done at %.1f s" % ctx.elapsed())
     judge_measured(ctx, st)
     if ctx.is_unshown() and not ctx.has_violation():
